@@ -29,8 +29,45 @@ func (t *tsFunc) inlinedTrueEdge(ifi *ssa.If, X string) int {
 	} else if call, ok := c.(*ssa.Call); ok && calleeName(call) == "Inlined" {
 		subj = callRecv(call)
 	}
-	if subj == nil {
+	byInit := func() int {
+		// a plain boolean the object's inlined flag was initialised from (`inlined := old.Inlined()` handed to the
+		// literal or to a private constructor of the new root, then `if !inlined { store }`)
+		if t.inlInit == nil {
+			t.inlInit = map[string][]ssa.Value{}
+			eachInstr(t.fn, func(in ssa.Instruction) {
+				switch x := in.(type) {
+				case *ssa.Alloc:
+					if v := litField(t.fn, x, "inlined"); v != nil {
+						for _, o := range t.obj(x) {
+							t.inlInit[o] = append(t.inlInit[o], v)
+						}
+					}
+				case *ssa.Call:
+					if v, inCallee, ok := constructorField(x, "inlined"); ok && !inCallee {
+						for _, o := range t.obj(x) {
+							t.inlInit[o] = append(t.inlInit[o], v)
+						}
+					}
+				}
+			})
+		}
+		for o, vs := range t.inlInit {
+			if o != X && "root("+o+")" != X && t.exitRoots[o] != X && t.exitRoots[X] != o {
+				continue
+			}
+			for _, v := range vs {
+				if _, isConst := canon(v).(*ssa.Const); isConst {
+					continue
+				}
+				if sameValue(v, c) {
+					return succ
+				}
+			}
+		}
 		return -1
+	}
+	if subj == nil {
+		return byInit()
 	}
 	for _, o := range t.obj(subj) {
 		if o == X || "root("+o+")" == X {
@@ -47,7 +84,7 @@ func (t *tsFunc) inlinedTrueEdge(ifi *ssa.If, X string) int {
 			}
 		}
 	}
-	return -1
+	return byInit()
 }
 
 func (t *tsFunc) edgeFilter(X string) func(from *ssa.BasicBlock, si int) bool {
@@ -186,6 +223,8 @@ func (e *tsEngine) analyze(f *ssa.Function) (*tsSummary, []tsFinding) {
 				}
 				if al, ok := nv.(*ssa.Alloc); ok {
 					idv = litField(f, al, "header", "slabID")
+				} else if cv, inCallee, ok := constructorField(st.Val, "header", "slabID"); ok && !inCallee {
+					idv = cv // built by a private constructor that is given the id
 				}
 				eachInstr(f, func(y ssa.Instruction) {
 					c, ok := y.(ssa.CallInstruction)
@@ -225,6 +264,9 @@ func (e *tsEngine) analyze(f *ssa.Function) (*tsSummary, []tsFinding) {
 		}
 		if idArg == nil {
 			return
+		}
+		if _, _, _, isCtor := constructorLiteral(call); isCtor {
+			return // a private constructor that is given the id of the slab it builds: nothing was retrieved
 		}
 		for idx := 0; idx < 2; idx++ {
 			for _, o := range t.callResultObj(call, idx, call.Type()) {
